@@ -40,11 +40,9 @@ func addHeaders(r *http.Request, cfg config.Proxy, stripPath string) error {
 	}
 
 	// set configurable ClientIPHeader
-	// X-Real-Ip is set later and X-Forwarded-For is set
-	// by the Go HTTP reverse proxy.
+	// X-Forwarded-For is set by the Go HTTP reverse proxy.
 	if cfg.ClientIPHeader != "" &&
-		cfg.ClientIPHeader != "X-Forwarded-For" &&
-		cfg.ClientIPHeader != "X-Real-Ip" {
+		cfg.ClientIPHeader != "X-Forwarded-For" {
 		r.Header.Set(cfg.ClientIPHeader, remoteIP)
 	}
 
